@@ -41,6 +41,65 @@ def gen_union(seed, k):
     return td
 
 
+def gen_padded_union(seed, k):
+    """a union WITHOUT a covering field: size_of::<Self>() is larger than every field (tail padding)"""
+    rng = rng_for(seed, PROP, "padded", k)
+    shapes = [([("[u8; 5]", 5, 1), ("u32", 4, 4)], 8), ([("[u8; 3]", 3, 1), ("u16", 2, 2)], 4),
+              ([("[u8; 9]", 9, 1), ("u64", 8, 8)], 16), ([("[u16; 3]", 6, 2), ("u32", 4, 4)], 8),
+              ([("[u8; 17]", 17, 1), ("u128", 16, 16), ("u8", 1, 1)], 32), ([("[u8; 6]", 6, 1), ("u32", 4, 4), ("u16", 2, 2)], 8)]
+    fields, size = rng.choice(shapes)
+    fields = list(fields)
+    rng.shuffle(fields)
+    traits = [t for t in ("Debug", "PartialEq", "Hash") if rng.random() < 0.8] or ["PartialEq"]
+    if "PartialEq" in traits and rng.random() < 0.5:
+        traits.append("Eq")
+    rng.shuffle(traits)
+    td = S.TypeDef("union", "Un")
+    td.traits = traits
+    for t in traits:
+        td.tsem[t] = {"unsafe": True} if t in ("Debug", "PartialEq", "Hash") else {}
+    if "Debug" in traits:
+        r = rng.random()
+        if r < 0.3:
+            td.tsem["Debug"]["name"] = False
+        elif r < 0.5:
+            td.tsem["Debug"]["name"] = "Renamed"
+    td.variants = [S.Variant(None, "named", [S.Field("abcdef"[i], U.ukind(*f), i) for i, f in enumerate(fields)])]
+    td.notes["size"] = size
+    td.notes["padded"] = True
+    return td
+
+
+def module_padded(cid, td, text, pats):
+    """values are built in place (MaybeUninit + byte copy) and only ever used by reference, so the padding bytes are
+    exactly the ones written"""
+    size = td.notes["size"]
+    name = effective_name(td)
+    glue = ["pub const SIZE: usize = %d;" % size,
+            "pub static PATS: [[u8; SIZE]; %d] = [%s];" % (len(pats), ", ".join("[%s]" % ", ".join(map(str, p)) for p in pats)),
+            "pub fn with<R>(b: &[u8; SIZE], f: impl FnOnce(&Un) -> R) -> R {\n    let mut m = ::core::mem::MaybeUninit::<Un>::uninit();\n"
+            "    unsafe { ::core::ptr::copy_nonoverlapping(b.as_ptr(), m.as_mut_ptr() as *mut u8, SIZE); f(&*m.as_ptr()) }\n}"]
+    if "Debug" in td.traits:
+        ref = ("f.debug_tuple(\"%s\").field(&&b[..]).finish()" % name) if name is not None else "::core::fmt::Debug::fmt(&b[..], f)"
+        glue.append("pub struct Ref(pub [u8; SIZE]);\nimpl ::core::fmt::Debug for Ref { fn fmt(&self, f: &mut ::core::fmt::Formatter<'_>) "
+                    "-> ::core::fmt::Result { let b = &self.0; %s } }" % ref)
+    body = ["assert_eq!(::core::mem::size_of::<Un>(), SIZE, \"SIZE-MISMATCH\");", "for (i, p) in PATS.iter().enumerate() {"]
+    if "Debug" in td.traits:
+        body.append("    let (d, dp) = with(p, |u| (format!(\"{:?}\", u), format!(\"{:#?}\", u)));\n"
+                    "    %sobs(\"%s\", \"dbg\", i, -1, &format!(\"{}\\t{}\\t{}\\t{}\", %shex(&d), %shex(&format!(\"{:?}\", Ref(*p))), "
+                    "%shex(&dp), %shex(&format!(\"{:#?}\", Ref(*p)))));" % (RT, cid, RT, RT, RT, RT))
+    if "Hash" in td.traits:
+        body.append("    let h = with(p, |u| %srec_hash(u));\n    %sobs(\"%s\", \"hash\", i, -1, &format!(\"{}\\t{}\", h, %srec_hash(&p[..])));"
+                    % (RT, RT, cid, RT))
+    if "PartialEq" in td.traits:
+        body.append("    let mut s = String::new();\n    for q in PATS.iter() { let (e, ne) = with(p, |u| with(q, |w| (u == w, u != w))); "
+                    "s.push(if e { '1' } else { '0' }); s.push(if ne { '1' } else { '0' }); }\n    %sobs(\"%s\", \"eq\", i, -1, &s);" % (RT, cid))
+    body.append("}")
+    run = "pub fn run() {\n    %sguarded(\"%s\", || {\n        %sbegin();\n        %s\n    });\n}\n" % (
+        RT, cid, RT, "\n        ".join(body))
+    return H.module(cid, text + "\n".join(glue) + "\n" + run)
+
+
 def patterns(rng, size, n):
     pats = [[0] * size, [0xFF] * size, [0xA5] * size, list(range(1, size + 1))]
     base = [rng.randrange(256) for _ in range(size)]
@@ -70,6 +129,8 @@ def effective_name(td):
 
 
 def module(cid, td, text, pats, exhaustive):
+    if td.notes.get("padded"):
+        return module_padded(cid, td, text, pats)
     size = td.notes["size"]
     ty = td.inst()
     name = effective_name(td)
@@ -166,6 +227,12 @@ def main(tier, seed, scale=1.0):
         text = S.render(td, rng_for(seed, PROP, "spell", k), extras=False)
         pats = patterns(rng, td.notes["size"], npat)
         cases.append(("c%d" % k, td, text, pats))
+    # unions with tail padding (no covering field): all size_of::<Self>() bytes count, also those no field covers
+    for k in range(max(8, n // 5)):
+        td = gen_padded_union(seed, k)
+        rng = rng_for(seed, PROP, "ppats", k)
+        text = S.render(td, rng_for(seed, PROP, "pspell", k), extras=False)
+        cases.append(("p%d" % k, td, text, patterns(rng, td.notes["size"], npat)))
     # exhaustive 2-byte unions (thorough): a few fixed definitions
     exh = []
     if tier == "thorough":
@@ -207,7 +274,9 @@ def main(tier, seed, scale=1.0):
         for b, (rc, o, err) in res.items():
             obs.update(o)
         runs.append(("native-release" if release else "native-debug", obs, dall))
-    mcases = [(cid, td, text, pats[:5]) for cid, td, text, pats in cases[:n_miri]]
+    padded = [c for c in cases if c[1].notes.get("padded")]
+    plain = [c for c in cases if not c[1].notes.get("padded")]
+    mcases = [(cid, td, text, pats[:5]) for cid, td, text, pats in plain[:max(1, n_miri - 3)] + padded[:3]]
     mprogs = progs_for(mcases, min(NCPU, max(1, len(mcases) // 4)))
     mdrop, _, _ = H.compile_programs("c20m", mprogs)
     mall = {}
